@@ -9,9 +9,10 @@ TRUSTED = [
     "code of sha224-256.c and sha384-512.c (one parametric model: block buffer, Message_Block_Index, length counter with the AddLength test "
     "of the variant that is compiled, both padding cases, Computed/Corrupted exits), blake2s-ref.c init/init_key/update/final (buffer-fill "
     "logic, t[0]/t[1] counter with carry, last-block flag, parameter checks), md_hmac, nist_kdf (md_kdf/md_mgf), md_xmd over all four SHA "
-    "streams, padEncrypt/padDecrypt/bc_aes_cbc_enc/bc_aes_cbc_dec, rijndaelKeySetupEnc and rijndaelEncrypt (word-level mirror over the "
-    "tables extracted from the C text: = FIPS 197 KeyExpansion / Cipher for every key and block), rijndaelDecrypt (= FIPS 197 par. 5.3.5 "
-    "equivalent inverse cipher = InvCipher, given a word array that holds the decryption round keys)",
+    "streams, padEncrypt/padDecrypt/bc_aes_cbc_enc/bc_aes_cbc_dec, rijndaelKeySetupEnc + rijndaelEncrypt and rijndaelKeySetupDec + "
+    "rijndaelDecrypt (word-level mirror over the tables extracted from the C text: = FIPS 197 KeyExpansion / Cipher resp. the par. 5.3.5 "
+    "key schedule / equivalent inverse cipher = InvCipher, for every key and block), so the CBC + PKCS#7 theorems hold for the table code "
+    "end to end with no hypothesis",
     "kernel-checked ties to the C text, regenerated on every run: the ten T-tables and rcon of rijndael-alg-fst.c (all 256 entries each "
     "= the FIPS 197 S-box / inverse S-box / GF(2^8) products they are documented to be), K / H0 / IV / sigma constants of the three hash "
     "files incl. both variants of sha384-512.c (= the constants of the standards' definitions), rotation amounts of the SIGMA/sigma/G "
@@ -19,9 +20,7 @@ TRUSTED = [
     "class C (executable specification compared on the presented lines only): the round functions SHA224_256ProcessMessageBlock, "
     "SHA384_512ProcessMessageBlock (compiled in its 32-bit-word emulation) and blake2s_compress - the models call the specification's "
     "compress / F, whose constants are tied as above but whose statement-level correspondence to the C text is the per-line comparison; "
-    "rijndaelKeySetupDec (the reversal + InvMixColumns of the round keys is executed by the model on every decryption line and its per-word "
-    "facts are proved, the loop induction is not, so the decryption-side theorems over the table code carry the hypothesis that the word "
-    "array holds the par. 5.3.5 keys); makeKey2/cipherInit glue of rijndael-api-fst.c; the preset-state harness ops md_stream_len / b2s_ctr "
+    "makeKey2/cipherInit glue of rijndael-api-fst.c; the preset-state harness ops md_stream_len / b2s_ctr "
     "write into library structs (counter located by a probe of the library itself)",
 ]
 ASSUMPTIONS = [
